@@ -10,6 +10,16 @@ local function mk(h, id)
 end
 local function once() local done = false return function() if not done then done = true return 1 end end end
 local function mark(k) emit("tail", k) return k end
+local function battery(id)
+  local s = 0 for i = 1, 5 do s = s + i end
+  local c = 0 local function inc() c = c + 1 return c end inc() inc()
+  local co = coroutine.wrap(function(a) local b = coroutine.yield(a + 1) return b * 2 end)
+  local y = co(20) local z = co(y)
+  local t = {} t.k = "x"
+  local ok, e = pcall(error, "B", 0)
+  local co2 = coroutine.create(function() coroutine.yield() end) coroutine.resume(co2)
+  emit("bat", id, s, inc(), z, t.k, ok, e, coroutine.status(co2))
+end
 """
 
 
@@ -23,73 +33,139 @@ def opener(kind, k):
     if kind == "fn":
         return 'emit("ret", %d, (function()' % k
     if kind == "pcall":
-        return 'emit("pcall", %d, pcall(function()' % k
+        return 'local r%d = table.pack(pcall(function()' % k
+    if kind == "xpcall":
+        return 'local r%d = table.pack(xpcall(function()' % k
     if kind == "co":
         return "local co%d = coroutine.create(function()" % k
     raise Infra(kind)
 
 
-def closer(kind, k, label=None):
+def closer(kind, k, label=None, hk="-", battery=False):
+    bat = ("if not r%d[1] then battery(%d) end" % (k, k)) if battery else None
     if kind == "do" or kind == "forin":
-        c = "end"
+        c = ["end"]
     elif kind == "loop":
-        c = ["end", "until true", "end"][k % 3]
+        c = [["end", "until true", "end"][k % 3]]
     elif kind == "fn":
-        c = "end)())"
+        c = ["end)())"]
     elif kind == "pcall":
-        c = "end))"
+        c = ["end))", 'emit("pcall", %d, table.unpack(r%d, 1, r%d.n))' % (k, k, k)] + ([bat] if bat else [])
+    elif kind == "xpcall":
+        h = ('function(e) emit("handler", %d, e) return "H%d" end' % (k, k)) if hk == "val" else ('function(e) emit("handler", %d, e) end' % k)
+        c = ["end, %s))" % h, 'emit("xpcall", %d, table.unpack(r%d, 1, r%d.n))' % (k, k, k)] + ([bat] if bat else [])
     elif kind == "co":
-        c = ('end)\nemit("resume", %d, coroutine.resume(co%d))\n'
-             'if coroutine.status(co%d) == "suspended" then emit("closed", %d, coroutine.close(co%d)) end') % (k, k, k, k, k)
-    out = [c]
+        c = ["end)", "local r%d = table.pack(coroutine.resume(co%d))" % (k, k),
+             'emit("resume", %d, table.unpack(r%d, 1, r%d.n))' % (k, k, k)] + ([bat] if bat else []) + [
+             'if coroutine.status(co%d) == "suspended" then emit("closed", %d, coroutine.close(co%d)) end' % (k, k, k)]
+    out = list(c)
     if label:
         out.append("::%s::" % label)
     out.append('emit("after", %d)' % k)
     return out
 
 
-def render(line, ms):
-    out = [PRELUDE % {"ms": ms, "tl": ", ".join("T[%d]" % i for i in range(1, ms + 1))}]
+def error_stmt(kind, k):
+    if kind == "str":
+        return 'error("E%d", 0)' % k
+    if kind == "tbl":
+        return "error(T[%d])" % k
+    if kind == "pos":
+        return ['error("E%d")' % k,
+                'local _ = setmetatable({}, {__index = function() error("E%d") end}).x' % k,
+                'for _ in function() error("E%d") end do end' % k][k % 3]
+    if kind == "pos2":
+        return 'do local _ = (function() error("E%d", 2) end)() end' % k
+    if kind == "num":
+        return "error(%d)" % k
+    if kind == "nilv":
+        return "error(nil)"
+    if kind == "rt":
+        return ["local _ = nil + 1", "local _ = (nil).x", "local _ = (nil)()"][k % 3]
+    raise Infra(kind)
+
+
+def render(line, ms, battery=False):
+    """returns (source text, {step k -> line number of its statement})"""
+    pre = PRELUDE % {"ms": ms, "tl": ", ".join("T[%d]" % i for i in range(1, ms + 1))}
+    out = pre.rstrip("\n").split("\n")
     stack = []
+    lineof = {}
+
+    def put(s):
+        for part in s.split("\n"):
+            out.append(part)
+
     for a in line["h"]:
         k, act = a["k"], a["a"]
         ind = "  " * len(stack)
         label = None
+        label_depth = -1
+        lineof[k] = len(out) + 1
         if act == "open":
-            out.append(ind + opener(a["kind"], k))
-            stack.append((a["kind"], k))
+            put(ind + opener(a["kind"], k))
+            stack.append((a["kind"], k, a.get("hk", "-")))
             continue
         if act == "decl":
             h = a["h"]
             rhs = {"ok": 'mk("ok", %d)' % k, "raise": 'mk("raise", %d)' % k, "nil": "nil", "false": "false", "nometa": "{}"}[h]
-            out.append(ind + "local x%d <close> = %s" % (k, rhs))
+            put(ind + "local x%d <close> = %s" % (k, rhs))
         elif act == "end":
             pass
         elif act == "break":
-            out.append(ind + "break")
+            put(ind + "break")
         elif act == "goto":
             label = "L%d" % k
             label_depth = len(stack) - a["cnt"]
-            out.append(ind + "goto " + label)
+            put(ind + "goto " + label)
         elif act == "return":
-            out.append(ind + "do return %d end" % k)
+            put(ind + "do return %d end" % k)
         elif act == "tailret":
-            out.append(ind + "do return mark(%d) end" % k)
+            put(ind + "do return mark(%d) end" % k)
         elif act == "error":
-            out.append(ind + ('error("E%d", 0)' % k if a["kind"] == "str" else "error(T[%d])" % k))
+            put(ind + error_stmt(a["kind"], k))
         elif act == "yieldclose":
-            out.append(ind + "coroutine.yield()")
+            put(ind + "coroutine.yield()")
         else:
             raise Infra("unknown action " + act)
         d = a["d"]
         while len(stack) > d:
-            kind, sk = stack.pop()
+            kind, sk, hk = stack.pop()
             lab = label if (label and len(stack) == label_depth) else None
-            out += ["  " * len(stack) + s for s in closer(kind, sk, lab)]
+            for s in closer(kind, sk, lab, hk, battery):
+                put("  " * len(stack) + s)
     while stack:
-        kind, sk = stack.pop()
-        out += ["  " * len(stack) + s for s in closer(kind, sk)]
-    return "\n".join(out) + "\n"
+        kind, sk, hk = stack.pop()
+        for s in closer(kind, sk, None, hk, battery):
+            put("  " * len(stack) + s)
+    return "\n".join(out) + "\n", lineof
+
+
+_TOKRE = re.compile(r"([PCQNH])(\d+)$")
+
+
+def make_tokf(lineof, line=None):
+    nometa = set(a["k"] for a in (line["h"] if line else []) if a["a"] == "decl" and a.get("h") == "nometa")
+
+    def tokf(x):
+        if isinstance(x, str):
+            if x == "NILV":
+                return None
+            m = _TOKRE.match(x)
+            if m:
+                c, k = m.group(1), int(m.group(2))
+                if c in "PC":
+                    return {"s": "chunk:%d: E%d" % (lineof.get(k, -1), k)}
+                if c == "Q" and k in nometa:
+                    return "STR"      # position of this particular error is probed separately (finding F24)
+                if c == "Q":
+                    return ("prefix", "chunk:%d:" % lineof.get(k, -1))
+                if c == "N":
+                    return {"i": str(k)}
+                if c == "H":
+                    return {"s": x}
+        return tok(x)
+    return tokf
 
 
 CONFIGS = {
@@ -98,7 +174,11 @@ CONFIGS = {
 }
 
 
-def run(prop, tier):
+def run(prop, tier, family="close"):
+    global CONFIGS
+    battery = family == "error"
+    if family == "error":
+        CONFIGS = {"quick": [("ErrorFlowQ.cfg", None)], "thorough": [("ErrorFlowT.cfg", None), ("ErrorFlowSim.cfg", "num=3000")]}
     rep = Report(prop, tier, "model_checking")
     cov = rep.cov
     cov.update(states=0, transitions=0, traces_validated_against_impl=0, configs=[], last_action_kinds={}, nontrivial=0)
@@ -111,7 +191,8 @@ def run(prop, tier):
         def process(lines):
             if sim:
                 lines = [l for l in lines if len(l["h"]) == ms or l["fin"] != "run"]
-            cases = [{"id": i, "src": render(l, ms), "timeout": 8000} for i, l in enumerate(lines)]
+            rend = [render(l, ms, battery) for l in lines]
+            cases = [{"id": i, "src": rend[i][0], "timeout": 8000} for i, l in enumerate(lines)]
             outs = run_lua_cases(drv, cases)
             if not state["first"]:
                 state["first"] = (lines[:], cases[:])
@@ -125,13 +206,21 @@ def run(prop, tier):
                 exp = [["tables"] + ["T%d" % j for j in range(1, ms + 1)]] + l["ev"]
                 if sum(1 for e in l["ev"] if e[0] == "tbc") >= 2:
                     cov["nontrivial"] += 1
-                why = compare_program(o, exp, l["fin"])
+                why = compare_program(o, exp, l["fin"], make_tokf(rend[i][1], l))
                 if why:
                     state["nbad"] += 1
                     kinds = sorted(set(a.get("kind", "") for a in l["h"] if a["a"] == "open"))
-                    sig = {"kind": why["kind"], "last": la["a"], "tag": why.get("tag", ""), "scopes": "+".join(kinds)}
+                    sig = {"kind": why["kind"], "last": la["a"], "tag": why.get("tag", ""), "scopes": "+".join(kinds),
+                           "got_tag": why.get("got_tag", "")}
                     rep.violation(sig, {"cmd": "lua-run", "src": cases[i]["src"], "history": l["h"], "expected_events": exp,
                                         "expected_outcome": l["fin"], "observed": o, "why": why})
+                elif (la["a"] == "decl" and la.get("h") == "nometa" and len(l["h"]) == 2 and l["h"][0].get("kind") == "pcall"
+                      and not state.get("f24")):
+                    state["f24"] = True
+                    msg = o["events"][1][3].get("s", "") if len(o["events"]) > 1 and len(o["events"][1]) > 3 and isinstance(o["events"][1][3], dict) else ""
+                    if not msg.startswith("chunk:%d:" % rend[i][1][la["k"]]):
+                        rep.violation({"kind": "nometa-no-position"}, {"cmd": "lua-run", "src": cases[i]["src"], "observed": o,
+                                      "why": "runtime error for a non-closable value carries no chunk:line: prefix: %r" % msg})
                 elif len(l["h"]) >= 5:
                     rep.sample({"history": l["h"], "program": cases[i]["src"], "events": o["events"]}, cap=2)
 
@@ -156,14 +245,14 @@ def run(prop, tier):
         # the same programs through the bare embedding entry point rt.Call (what the golua command uses):
         # programs that end normally must behave identically; programs whose error reaches the host are the
         # recorded deviation F23 (pending variables of the main chunk are not closed).
-        raw_idx = [i for i, l in enumerate(lines) if not any(a.get("kind") in ("pcall", "co") for a in l["h"])][:400]
+        raw_idx = [i for i, l in enumerate(lines) if not any(a.get("kind") in ("pcall", "xpcall", "co") for a in l["h"])][:400]
         raw_cases = [dict(cases[i], raw=True) for i in raw_idx]
         routs = run_lua_cases(drv, raw_cases)
         cov["raw_entry_programs"] = cov.get("raw_entry_programs", 0) + len(raw_cases)
         for i in raw_idx:
             l = lines[i]
             exp = [["tables"] + ["T%d" % j for j in range(1, ms + 1)]] + l["ev"]
-            why = compare_program(routs[i], exp, l["fin"])
+            why = compare_program(routs[i], exp, l["fin"], make_tokf(render(l, ms, battery)[1], l))
             if why:
                 if l["fin"].startswith("error:") and why["kind"] == "events" and why.get("tag") == "tbc":
                     sig = {"kind": "raw-toplevel"}
